@@ -28,6 +28,34 @@ def _match_known(v, known):
     return None
 
 
+def measured_bounds(units):
+    """the bounds of this run, read off the units that were executed: for every harness the
+    range of each integer parameter (D = number of Taylor coefficients, P = directions, sizes,
+    orders, lengths) and the set of values of every other parameter (shapes, kinds, names; at
+    most 12 listed).  Everything outside these ranges is outside the claim."""
+    per = {}
+    for u in units:
+        h = per.setdefault(u.func, {'units': 0, 'params': {}})
+        h['units'] += 1
+        for k, v in (u.kwargs or {}).items():
+            h['params'].setdefault(k, []).append(v)
+    out = {}
+    for func, h in sorted(per.items()):
+        d = {'units': h['units']}
+        for k, vals in sorted(h['params'].items()):
+            if all(isinstance(v, (int,)) and not isinstance(v, bool) for v in vals):
+                d[k] = {'min': min(vals), 'max': max(vals)}
+            else:
+                seen = []
+                for v in vals:
+                    r = repr(v)
+                    if r not in seen:
+                        seen.append(r)
+                d[k] = {'distinct': len(seen), 'values': seen[:12]}
+        out[func] = d
+    return {'per_harness': out, 'unit_time_limit_s': sorted(set(int(u.opts.get('unit_timeout', 0)) for u in units if u.opts.get('unit_timeout'))) or 'default (150 quick / 900 thorough)'}
+
+
 def finish(pid, tier, seed, mod, units, results, wall, known, write=True):
     tot = lambda key: sum(r[key] for r in results)
     violations = [v for r in results for v in r['violations']]
@@ -91,7 +119,8 @@ def finish(pid, tier, seed, mod, units, results, wall, known, write=True):
         samples = [r['sample'] for r in results if r['sample']][:8]
         if not samples:
             samples = [{'unit': r['unit']} for r in results[:3]]
-        bounds = getattr(mod, 'bounds', lambda t: {})(tier)
+        bounds = measured_bounds(units)
+        bounds.update(getattr(mod, 'bounds', lambda t: {})(tier))
         try:
             head = subprocess.run(['git', '-C', os.environ.get('ALGOPY_REPO', '/repo'), 'rev-parse', 'HEAD'],
                                   capture_output=True, text=True).stdout.strip()
